@@ -31,6 +31,7 @@ import (
 	"os"
 	"path/filepath"
 	"runtime"
+	"runtime/debug"
 	"strings"
 	"sync"
 	"time"
@@ -49,6 +50,10 @@ func c20DecryptClass(err error) byte {
 		return 's'
 	case errors.Is(err, rsa.ErrDecryption):
 		return 'r'
+	}
+	var pe c20Panic
+	if errors.As(err, &pe) {
+		return 'P'
 	}
 	var ce base64.CorruptInputError
 	if errors.As(err, &ce) {
@@ -79,6 +84,20 @@ func c20VerifyClass(err error) string {
 		return "short"
 	}
 	return "other"
+}
+
+// c20Decrypt calls learn.Decrypt, turning a Go panic into an error of its own class.
+type c20Panic struct{ v any }
+
+func (p c20Panic) Error() string { return fmt.Sprintf("Go panic: %v", p.v) }
+
+func c20Decrypt(priv, sealed string) (plain string, err error) {
+	defer func() {
+		if v := recover(); v != nil {
+			plain, err = "", c20Panic{v}
+		}
+	}()
+	return learn.Decrypt(priv, sealed)
 }
 
 // ---------- text generators ----------
@@ -149,7 +168,7 @@ func c20Envelope(cfg Config, r *Result, model *Model, keys []c20Keys) {
 			r.Violate(Violation{Kind: "property", Key: "encrypt-fails", Detail: "Encrypt with a freshly generated public key failed: " + err.Error(), Input: input})
 			continue
 		}
-		plain, err := learn.Decrypt(keys[ki].KP.Private, sealed)
+		plain, err := c20Decrypt(keys[ki].KP.Private, sealed)
 		if err != nil || plain != text {
 			input["sealed"] = sealed
 			r.Violate(Violation{Kind: "property", Key: "roundtrip-differs", Detail: fmt.Sprintf("Decrypt(Encrypt(text)) != text (err=%v)", err), Input: input, Impl: hex.EncodeToString([]byte(plain))})
@@ -185,8 +204,8 @@ func c20Envelope(cfg Config, r *Result, model *Model, keys []c20Keys) {
 				r.Violate(Violation{Kind: "correspondence", Key: "frame-differs", Detail: "model frame of the real RSA and AES parts is not the real envelope", Input: input})
 			}
 		}
-		if len(r.Samples) < 1 {
-			r.Sample(map[string]any{"text_hex": hex.EncodeToString([]byte(text)), "sealed": sealed, "model_unframe": ans})
+		if len(r.Samples) < 1 && len(text) > 0 {
+			r.Sample(map[string]any{"text_hex": hex.EncodeToString([]byte(text)), "sealed": sealed, "model_unframe": want, "key_bits": keys[ki].Bits})
 		}
 	}
 	// garbage through unframe/Decrypt: random byte strings (mostly short), class must agree
@@ -202,7 +221,7 @@ func c20Envelope(cfg Config, r *Result, model *Model, keys []c20Keys) {
 			raw[1] = 0
 			raw[2] = byte(cfg.Rng.Intn(n + 3))
 		}
-		_, err := learn.Decrypt(keys[0].KP.Private, base64.StdEncoding.EncodeToString(raw))
+		_, err := c20Decrypt(keys[0].KP.Private, base64.StdEncoding.EncodeToString(raw))
 		ans, merr := model.Ask(Lst(Sym("unframe"), Str(hex.EncodeToString(raw))).String())
 		implShort := c20DecryptClass(err) == 's'
 		r.Count(fmt.Sprintf("garb/%x", raw), n >= 3)
@@ -211,6 +230,10 @@ func c20Envelope(cfg Config, r *Result, model *Model, keys []c20Keys) {
 		if merr != nil || (ans == "none") != implShort {
 			r.Violate(Violation{Kind: "correspondence", Key: "unframe-garbage-differs", Detail: "model unframe = none must coincide with ErrSealedTooShort",
 				Input: map[string]any{"kind": "tamper", "private": keys[0].KP.Private, "sealed": base64.StdEncoding.EncodeToString(raw), "text_hex": ""}, Impl: fmt.Sprint(err), Model: ans})
+		}
+		if c20DecryptClass(err) == 'P' {
+			r.Violate(Violation{Kind: "property", Key: "decrypt-panics", Detail: "Decrypt panics on garbage: " + err.Error(),
+				Input: map[string]any{"kind": "tamper", "private": keys[0].KP.Private, "sealed": base64.StdEncoding.EncodeToString(raw), "text_hex": ""}})
 		}
 		if err == nil {
 			r.Violate(Violation{Kind: "property", Key: "garbage-decrypts", Detail: "random bytes decrypt successfully",
@@ -378,7 +401,7 @@ func c20Sweep(cfg Config, r *Result, model *Model, keys []c20Keys, v c20SealedVa
 				if strings.HasPrefix(sealed, "\x00otherkey:") {
 					key, sealed = strings.TrimPrefix(sealed, "\x00otherkey:"), v.Sealed
 				}
-				p, err := learn.Decrypt(key, sealed)
+				p, err := c20Decrypt(key, sealed)
 				res[i] = outc{cls: c20DecryptClass(err), plain: p}
 				if err != nil {
 					res[i].err = err.Error()
@@ -399,6 +422,9 @@ func c20Sweep(cfg Config, r *Result, model *Model, keys []c20Keys, v c20SealedVa
 		r.Distribution["tamper:"+string(res[i].cls)]++
 		if res[i].cls == 'o' && res[i].plain != v.Text {
 			r.Violate(Violation{Kind: "property", Key: "tamper-yields-different-answer", Detail: "an altered sealed value decrypts to a text that is not the original (" + c.what + ")", Input: input, Impl: hex.EncodeToString([]byte(res[i].plain))})
+		}
+		if res[i].cls == 'P' {
+			r.Violate(Violation{Kind: "property", Key: "decrypt-panics", Detail: "Decrypt panics on an altered sealed value (" + c.what + "): " + res[i].err, Input: input})
 		}
 		if c.want != 0 {
 			r.Validated++
@@ -482,7 +508,7 @@ func c20FmClass(err error) string {
 
 func c20Frontmatters(cfg Config, r *Result, model *Model, keys []c20Keys, dir string) {
 	n := cfg.N(150, 2000)
-	opsPool := []string{"seal", "seal", "unseal", "unseal", "unseal-wrong", "unseal-nokey"}
+	opsPool := []string{"seal", "seal", "seal", "unseal", "unseal", "unseal", "unseal-wrong", "unseal-nokey", "set-answer"}
 	for i := 0; i < n; i++ {
 		answer := "a"
 		if i%3 != 0 {
@@ -513,9 +539,11 @@ func c20Frontmatters(cfg Config, r *Result, model *Model, keys []c20Keys, dir st
 		opsx := make([]SX, len(ops))
 		var impl []string
 		wrong := keys[(ki+1)%len(keys)].KP.Private
+		sealedPlain := "" // the plaintext of what is currently in sealed-answer
 		for j, op := range ops {
 			opsx[j] = Sym(op)
 			var e error
+			a0, s0 := m.Frontmatter.Answer, m.Frontmatter.SealedAnswer
 			switch op {
 			case "seal":
 				e = m.Frontmatter.Seal(keys[ki].KP.Public)
@@ -523,20 +551,33 @@ func c20Frontmatters(cfg Config, r *Result, model *Model, keys []c20Keys, dir st
 				e = m.Frontmatter.Unseal(keys[ki].KP.Private)
 			case "unseal-wrong":
 				e = m.Frontmatter.Unseal(wrong)
+			case "set-answer": // a hand edit: may produce the invalid state with both fields set
+				m.Frontmatter.Answer = "zz"
 			default:
 				e = m.Frontmatter.Unseal("")
 			}
 			a, s := m.Frontmatter.Answer, m.Frontmatter.SealedAnswer
 			impl = append(impl, Lst(Sym(c20FmClass(e)), Str(a), Bool(s != "")).String())
+			if op == "set-answer" {
+				continue
+			}
 			// property oracle on the implementation
-			if a != "" && s != "" {
-				r.Violate(Violation{Kind: "property", Key: "frontmatter-both-fields-set", Detail: "answer and sealed-answer are both set after " + op, Input: input})
+			if e != nil && (a != a0 || s != s0) {
+				r.Violate(Violation{Kind: "property", Key: "frontmatter-changed-by-failed-op", Detail: "a failed " + op + " changed the front matter", Input: input})
 			}
-			if e == nil && a != "" && a != answer {
-				r.Violate(Violation{Kind: "property", Key: "frontmatter-unseal-differs", Detail: "the unsealed answer is not the original answer", Input: input, Impl: a})
+			if e == nil && a != "" && s != "" {
+				r.Violate(Violation{Kind: "property", Key: "frontmatter-both-fields-set", Detail: "answer and sealed-answer are both set after a successful " + op, Input: input})
 			}
-			if e == nil && op == "seal" && (a != "" || s == "") {
-				r.Violate(Violation{Kind: "property", Key: "frontmatter-seal-state", Detail: "after a successful Seal the answer must be empty and the sealed answer set", Input: input})
+			if e == nil && op == "seal" {
+				if a != "" || s == "" {
+					r.Violate(Violation{Kind: "property", Key: "frontmatter-seal-state", Detail: "after a successful Seal the answer must be empty and the sealed answer set", Input: input})
+				}
+				if a0 != "" {
+					sealedPlain = a0
+				}
+			}
+			if e == nil && op != "seal" && s0 != "" && a != sealedPlain {
+				r.Violate(Violation{Kind: "property", Key: "frontmatter-unseal-differs", Detail: "the unsealed answer is not the answer that was sealed", Input: input, Impl: a})
 			}
 		}
 		ans, merr := model.Ask(Lst(Sym("fmops"), Str(answer), LstOf(opsx)).String())
@@ -788,6 +829,11 @@ func c20RunVerify(dir, name, content, answer string, mode c20Mode, kp learn.KeyP
 		return "", nil, "", "io"
 	}
 	defer os.Remove(file)
+	defer func() {
+		if v := recover(); v != nil {
+			class, outs, gen, harnessErr = "panic", nil, "", ""
+		}
+	}()
 	if mode.Seal {
 		m, err := learn.NewQuestionModel(file)
 		if err != nil {
@@ -966,6 +1012,163 @@ func c20TextQuestion(rng *rand.Rand) c20Question {
 	return q
 }
 
+// ---------- part C': the question files that exist in the repository ----------
+
+func c20LearnDir() string {
+	if bi, ok := debug.ReadBuildInfo(); ok {
+		for _, d := range bi.Deps {
+			if d.Path == "evylang.dev/evy/learn" && d.Replace != nil {
+				return d.Replace.Path
+			}
+		}
+	}
+	return "/repo/learn"
+}
+
+func c20CopyTree(src, dst string) error {
+	return filepath.Walk(src, func(p string, info os.FileInfo, err error) error {
+		if err != nil {
+			return err
+		}
+		rel, _ := filepath.Rel(src, p)
+		if info.IsDir() {
+			return os.MkdirAll(filepath.Join(dst, rel), 0o755)
+		}
+		b, err := os.ReadFile(p)
+		if err != nil {
+			return err
+		}
+		return os.WriteFile(filepath.Join(dst, rel), b, 0o644)
+	})
+}
+
+// independent reading of a choice answer: letters separated by commas
+func c20ParseMarks(atype, answer string) ([]int, bool) {
+	parts := []string{answer}
+	if atype == "multiple-choice" {
+		parts = strings.Split(answer, ",")
+	}
+	var marks []int
+	for _, p := range parts {
+		if atype == "multiple-choice" {
+			p = strings.TrimFunc(p, unicode.IsSpace)
+		}
+		if len(p) != 1 || p[0] < 'a' || p[0] > 'z' {
+			return nil, false
+		}
+		marks = append(marks, int(p[0]-'a'))
+	}
+	return marks, true
+}
+
+// every unsealed match-verified choice/text question file of the learn module
+// (testdata and content), copied to a scratch directory (loading may write
+// generated .svg files next to the sources), verified by the real code and by
+// the model on the outputs the real renderers produce
+func c20RepoQuestions(e *c20Env) {
+	r := e.r
+	src := c20LearnDir()
+	n := 0
+	for _, sub := range []string{"pkg/learn/testdata", "content"} {
+		from := filepath.Join(src, sub)
+		if _, err := os.Stat(from); err != nil {
+			continue
+		}
+		to := filepath.Join(e.dir, "repo", sub)
+		if err := c20CopyTree(from, to); err != nil {
+			r.Note("repo questions: copy of %s failed: %v", from, err)
+			continue
+		}
+		filepath.Walk(to, func(p string, info os.FileInfo, err error) error {
+			if err != nil || info.IsDir() || !strings.HasSuffix(p, ".md") {
+				return nil
+			}
+			b, _ := os.ReadFile(p)
+			if !strings.Contains(string(b), "\ntype: question") && !strings.HasPrefix(string(b), "---\ntype: question") {
+				return nil
+			}
+			class, atype, answer, gen, outs, skip := c20LoadRepoQuestion(p)
+			rel, _ := filepath.Rel(e.dir, p)
+			if skip != "" {
+				r.Dist("repo-question:skipped:" + skip)
+				return nil
+			}
+			n++
+			mt := map[string]string{"single-choice": "single", "multiple-choice": "multi", "text": "text"}[atype]
+			outsx := make([]SX, len(outs))
+			equal := make([]bool, len(outs))
+			for i, o := range outs {
+				outsx[i] = Str(o)
+				equal[i] = o == gen
+			}
+			r.Count("repo/"+rel, true)
+			r.Dist("repo-question:" + mt + ":" + class)
+			input := map[string]any{"kind": "repo-question", "file": rel, "answer": answer}
+			if mt == "text" {
+				return nil // the answer block's kind and evy output are not observable from outside: only counted
+			}
+			ans, merr := e.model.Ask(Lst(Sym("verify"), Bool(false), Bool(false), Sym("none"), Bool(false), Bool(false), Sym(mt), Str(answer),
+				Bool(false), LstOf(outsx), Str(gen), Str("")).String())
+			r.Validated++
+			if merr != nil || ans != class {
+				r.Violate(Violation{Kind: "correspondence", Key: "verify-model-differs:" + class + "-vs-" + ans, Detail: "a question file of the repository: Verify and the model disagree", Input: input, Impl: class, Model: ans})
+			}
+			if marks, ok := c20ParseMarks(atype, answer); ok {
+				want := sameSet(marks, equal)
+				if (class == "ok") != want {
+					key := "verify-rejects-exact-marks"
+					if class == "ok" {
+						key = "verify-accepts-wrong-marks"
+						inRange := []int{}
+						for _, m := range marks {
+							if m < len(equal) {
+								inRange = append(inRange, m)
+							}
+						}
+						if sameSet(inRange, equal) {
+							key = "verify-mark-beyond-last-choice"
+						}
+					}
+					r.Violate(Violation{Kind: "property", Key: key, Detail: fmt.Sprintf("repository question %s: marks %v, matching choices %v, Verify: %s", rel, marks, equal, class), Input: input, Impl: class})
+				}
+			}
+			return nil
+		})
+	}
+	r.Note("question files of the repository verified by implementation and model: %d", n)
+}
+
+func c20LoadRepoQuestion(p string) (class, atype, answer, gen string, outs []string, skip string) {
+	defer func() {
+		if v := recover(); v != nil {
+			skip = "panic"
+		}
+	}()
+	m, err := learn.NewQuestionModel(p)
+	if err != nil {
+		return "", "", "", "", nil, "load-error"
+	}
+	fm := m.Frontmatter
+	switch {
+	case fm.GenerateQuestions != "":
+		return "", "", "", "", nil, "generated"
+	case fm.Verification != "" && fm.Verification != "match":
+		return "", "", "", "", nil, "verification-" + string(fm.Verification)
+	case m.IsSealed():
+		return "", "", "", "", nil, "sealed"
+	}
+	verr := m.Verify()
+	gen = m.Question.RenderOutput()
+	for _, c := range m.AnswerChoices {
+		o := c.RenderOutput()
+		if o == "*** txtar Content ERROR ***" {
+			return "", "", "", "", nil, "txtar"
+		}
+		outs = append(outs, o)
+	}
+	return c20VerifyClass(verr), string(fm.AnswerType), fm.Answer, gen, outs, ""
+}
+
 // ---------- is_space against unicode.IsSpace ----------
 
 func c20Spaces(r *Result, model *Model) {
@@ -1003,7 +1206,7 @@ func c20Replay(cfg Config, r *Result, model *Model, dir string) {
 	switch str("kind") {
 	case "tamper":
 		text, _ := hex.DecodeString(str("text_hex"))
-		p, err := learn.Decrypt(str("private"), str("sealed"))
+		p, err := c20Decrypt(str("private"), str("sealed"))
 		r.Count("replay", true)
 		r.Note("replay tamper: class %c", c20DecryptClass(err))
 		if err == nil && p != string(text) {
@@ -1078,7 +1281,9 @@ func runC20(cfg Config, r *Result) {
 	t1 := time.Now()
 	c20Frontmatters(cfg, r, model, keys, dir)
 	t2 := time.Now()
-	c20Verification(&c20Env{cfg: cfg, r: r, model: model, keys: keys, dir: dir})
+	env := &c20Env{cfg: cfg, r: r, model: model, keys: keys, dir: dir}
+	c20Verification(env)
+	c20RepoQuestions(env)
 	r.Note("wall: envelope %.1fs, front matter %.1fs, verification %.1fs", t1.Sub(t0).Seconds(), t2.Sub(t1).Seconds(), time.Since(t2).Seconds())
 	r.Exhaustive = false
 	r.Note("keys are generated with crypto/rand and Encrypt draws its session key from crypto/rand: the sealed values differ from run to run even with the same VERIF_SEED; every violation's replay input carries the key material and the exact sealed string")
